@@ -109,7 +109,7 @@ theorem write_property_matches_permission (H : Handlers) (srv : Server) (cells :
     dsimp only
     cases secCheck (requiresEnc srv.enc a) c <;> simp
   | service _ _ => rw [hk] at hv; cases hv
-  | charDecl _ _ _ _ _ => rw [hk] at hv; cases hv
+  | charDecl _ _ _ _ _ _ => rw [hk] at hv; cases hv
   | cccd _ => rw [hk] at hv; cases hv
   | userDesc _ => rw [hk] at hv; cases hv
   | descriptor _ => rw [hk] at hv; cases hv
@@ -189,7 +189,7 @@ theorem read_property_matches_permission_partial (H : Handlers) (srv : Server) (
     dsimp only
     cases secCheck (requiresEnc srv.enc a) c <;> simp
   | service _ _ => rw [hk] at hv; cases hv
-  | charDecl _ _ _ _ _ => rw [hk] at hv; cases hv
+  | charDecl _ _ _ _ _ _ => rw [hk] at hv; cases hv
   | cccd _ => rw [hk] at hv; cases hv
   | userDesc _ => rw [hk] at hv; cases hv
   | descriptor _ => rw [hk] at hv; cases hv
@@ -308,7 +308,7 @@ theorem no_read_access_enforced_partial (H : Handlers) (srv : Server) (cells : L
     dsimp only
     cases secCheck (requiresEnc srv.enc a) c <;> simp
   | service _ _ => rw [hk] at hv; cases hv
-  | charDecl _ _ _ _ _ => rw [hk] at hv; cases hv
+  | charDecl _ _ _ _ _ _ => rw [hk] at hv; cases hv
   | cccd _ => rw [hk] at hv; cases hv
   | userDesc _ => rw [hk] at hv; cases hv
   | descriptor _ => rw [hk] at hv; cases hv
